@@ -70,17 +70,22 @@ class C01(core.Check):
     def requests(self, case: dict, impl: Any) -> List[str]:
         if "internals" not in impl or impl.get("chop_error") or impl.get("unrealisable") or impl.get("extreme"):
             return []
+        # (the last request is always the schedule: neighbours and coincident wires built from the vertex indexes)
         reqs = [pc.model_request(impl["internals"], impl["chops"])]
         m3 = (impl.get("third") or {}).get("model")
         if m3:
             # the write after the late chops against a fresh model run on all chops placed so far (M-HIST)
             reqs.append(pc.model_request(m3["internals"], m3["chops"]))
+        reqs.append(pc.sched_request(impl["internals"]))
         return reqs
 
     def compare(self, case: dict, impl: Any, model: List[str]) -> Optional[str]:
+        why = pc.compare_sched(impl["internals"], model[-1])
+        if why:
+            return why
         why = pc.compare_with_model(impl, model[0], level=self.compare_level)
         m3 = (impl.get("third") or {}).get("model")
-        if why is None and m3 and len(model) > 1:
+        if why is None and m3 and len(model) > 2:
             why = pc.compare_with_model(m3, model[1], level=self.compare_level)
             if why:
                 why = "write after late chops (session of M-HIST): " + why
